@@ -35,6 +35,7 @@ EMIT_KINDS = {  # NameSection method -> (index fn, collection)
     'memories': ('get_memory_index', 'memories'), 'globals': ('get_global_index', 'globals'),
     'elements': ('get_element_index', 'elements'), 'data': ('get_data_index', 'data'),
 }
+INDEX_FNS = {v[0] for v in EMIT_KINDS.values()}   # the id->index vocabulary; any other accessor of the index maps is inlined
 DROPPABLE = {'Label', 'Field', 'Tag', 'Unknown'}
 
 
@@ -116,7 +117,7 @@ def k2(F, res):
         return None
     pol = Policy(effects=[r'wasm_encoder::Name\w*::\w+$', r'slice::<impl \[T\]>::sort', r'wasm_encoder::Module::section$',
                           r'wasm_encoder::IndirectNameMap::'],
-                 inline=lambda p: not p.startswith('emit::IdsToIndices'), atom_hint=hint)
+                 inline=lambda p: not (p.startswith('emit::IdsToIndices') and p.split('::')[-1] in INDEX_FNS), atom_hint=hint)
     ws = [w for w in Evaluator(F, pol).run_fn(ENS, [sym('cx')]) if w.outcome == 'return']
     if not ws:
         res.error('emit_name_section: no world')
